@@ -176,6 +176,27 @@ def construct(n, kind, vals):
         return C(M[:, 1])
     if kind == "memview":
         return C(memoryview(array.array("d", [float(v) for v in vals])))
+    # seeding round 6: kind / flags of the exporting buffer.  Read-only exporters are as good as writable ones (the entries are copied)
+    if kind == "npro":
+        a = np.array([float(v) for v in vals], dtype=np.float64); a.flags.writeable = False
+        return C(a)
+    if kind == "npfrombytes":                   # a read-only array over an immutable bytes object
+        return C(np.frombuffer(np.array([float(v) for v in vals], dtype=np.float64).tobytes(), dtype=np.float64))
+    if kind == "mvro":                          # a read-only memoryview with format 'd' over a bytes object
+        return C(memoryview(np.array([float(v) for v in vals], dtype=np.float64).tobytes()).cast("d"))
+    if kind == "npbc":                          # broadcast view: stride 0, read-only (the generator gives equal values)
+        return C(np.broadcast_to(np.array([float(vals[0]) if vals else 0.0]), (len(vals),)))
+    # rejected: non-native byte order, raw bytes, float itemsize 4, zero- and two-dimensional read-only arrays
+    if kind == "npbe":
+        return C(np.array([float(v) for v in vals], dtype=">f8"))
+    if kind == "bytes":
+        return C(bytes(8 * len(vals)))
+    if kind == "arrayf":
+        return C(array.array("f", [float(v) for v in vals]))
+    if kind == "np0d":
+        return C(np.array(float(vals[0]) if vals else 0.0))
+    if kind == "npro2d":
+        return C(np.broadcast_to(np.array([float(v) for v in vals], dtype=np.float64), (2, len(vals))))
     # rejected buffers: other element types, not one-dimensional
     if kind == "npint":
         return C(np.array([int(v) for v in vals], dtype=np.int64))
@@ -232,6 +253,58 @@ def npv(a, op, i=0, x=0.0):
     return run("c20npv", StringIO(NPV_CODE), a, int(op), int(i), float(x))
 
 
+def as_array(x):
+    return x if isinstance(x, np.ndarray) else np.array(x, copy=False)
+
+
+def exporter(x, kind):
+    """a fresh EXPORTER object over the memory of register x with the given flags (seeding round 6); returns (object, after)
+    where after() -> "" or a complaint: run after the access to look at memory that is not visible through the registers"""
+    a = as_array(x)
+    none = lambda: ""
+    if kind == "w":
+        return a.view(), none
+    if kind == "warr":                           # another writable exporter (array.array) holding the entries of x: what the
+        arr = array.array("d", a.tolist())       # NumPyVector does to it is copied back into x
+        def back():
+            a[...] = np.frombuffer(arr, dtype=np.float64) if len(arr) else a
+            return ""
+        return np.frombuffer(arr, dtype=np.float64) if len(arr) else np.zeros(0), back
+    if kind == "ro" or (kind == "romv" and not (a.flags.c_contiguous and a.flags.writeable and a.size)):
+        v = a.view(); v.flags.writeable = False
+        return v, none
+    if kind == "romv":                           # the same memory exported read-only by a memoryview
+        return np.frombuffer(memoryview(a).toreadonly(), dtype=a.dtype), none
+    if kind == "rob":                            # an immutable bytes object holding the entries of x
+        b = a.tobytes(); keep = bytearray(b)
+        return np.frombuffer(b, dtype=a.dtype), (lambda: "" if bytes(keep) == b else "(BYTES-OBJECT-MUTATED)")
+    if kind == "robc":                           # broadcast of the first entry: read-only, stride 0
+        return np.broadcast_to(a[:1], (3,)), none
+    if kind == "ro2d":
+        return np.broadcast_to(a, (2, a.shape[0])), none
+    if kind == "rof32":
+        v = a.astype(np.float32); v.flags.writeable = False
+        return v, none
+    raise ValueError("bad exporter kind " + kind)
+
+
+def nx_step(R, t):
+    """`nx kind r access [args]`: the access through a C++ NumPyVector wrapped around an exporter of register r"""
+    e, after = exporter(R[int(t[2])], t[1])
+    acc = t[3]
+    try:
+        if acc == "len": o = "i:%d" % int(npv(e, 0))
+        elif acc == "get": o = "s:" + fr(npv(e, 1, int(t[4])))
+        elif acc == "set": npv(e, 2, int(t[4]), float(q(t[5]))); o = "ok"
+        elif acc == "imuls": npv(e, 3, 0, float(q(t[4]))); o = "ok"
+        elif acc == "iadds": npv(e, 6, 0, float(q(t[4]))); o = "ok"
+        elif acc == "norm22": o = "s:" + fr(npv(e, 4))
+        else: o = "UNKNOWN-OP"
+    except (ValueError, BufferError, RuntimeError, TypeError) as ex:
+        o = "!" + type(ex).__name__
+    return o + after()
+
+
 def npv_step(R, t):
     """ops of an `npv` script: the registers are NumPy arrays / views, every access goes through the C++ NumPyVector"""
     op = t[0]
@@ -241,6 +314,8 @@ def npv_step(R, t):
         return objstr(a)
     if op == "bad2d":
         return "s:" + fr(npv(np.zeros((2, 2)), 0))
+    if op == "nx":
+        return nx_step(R, t)
     if op == "newv":                     # a FieldVector; its buffer view (op `view`) is what the NumPyVector wraps
         return result(R, construct(int(t[1]), t[2], qlist(t[3])))
     x = R[int(t[1])]
@@ -265,7 +340,7 @@ def npv_step(R, t):
 
 
 MUTATING = {"set", "iadd", "isub", "iaddl", "imuls", "idivs", "iadds", "isubs", "assign", "setslice", "isubl", "assignl", "setnp",
-            "setslicefrom", "arriadd", "arrisub", "arrimuls", "arriadds"}
+            "setslicefrom", "arriadd", "arrisub", "arrimuls", "arriadds", "nx", "iaddro", "isubro", "assignro"}
 
 
 def result(R, res, operand=None):
@@ -291,13 +366,20 @@ def result(R, res, operand=None):
 
 def step(R, t, dyn=None):
     op = t[0]
-    r = int(t[1]) if len(t) > 1 and op not in ("new", "newfrom") else None
+    r = int(t[1]) if len(t) > 1 and op not in ("new", "newfrom", "newfromx") else None
     if op == "new":
         if dyn is not None:
             return result(R, dyn() if t[2] == "noarg" else dyn([num(v) for v in qlist(t[3])]))
         return result(R, construct(int(t[1]), t[2], qlist(t[3])))
     if op == "newfrom":
         return result(R, cls(int(t[1]))(R[int(t[2])]))
+    if op == "newfromx":                 # FieldVector_n( exporter of R[r] ): read-only / other format / two-dimensional exporters
+        return result(R, cls(int(t[2]))(exporter(R[int(t[3])], t[1])[0]))
+    if op in ("addro", "subro", "dotro", "eqro", "iaddro", "isubro", "assignro"):      # a read-only exporter as operand
+        R2 = list(R) + [exporter(R[int(t[2])], "ro")[0]]          # the exporter is a temporary, not a register
+        out = step(R2, [op[:-2], t[1], str(len(R))], dyn)
+        R.extend(R2[len(R) + 1:])
+        return out
     if op == "crossbad":                 # the double class from a float object (buffer of another element type)
         return result(R, cls_double(len(R[int(t[1])]))(R[int(t[1])]))
     if op == "drop":                     # the script drops its reference; views / results keep whatever they need alive
@@ -534,7 +616,7 @@ def run_case(line):
             continue
         try:
             o = npv_step(R, t) if is_npv else step(R, t, dyn)
-        except (IndexError, TypeError, ValueError, RuntimeError, ZeroDivisionError, AttributeError, OverflowError) as e:
+        except (IndexError, TypeError, ValueError, RuntimeError, ZeroDivisionError, AttributeError, OverflowError, BufferError) as e:
             o = "!" + type(e).__name__
         if t[0] in MUTATING:
             o += dump(R)
